@@ -24,8 +24,9 @@ def try_harness(tier):
                    defines={'STRING_LITERALS_OPAQUE': 1}, inputs=['behav', 'match_of'],
                    note='body/handlers/finally: abstract children, each returns or throws one of 6 kinds; typed clauses match per oracle bit')
 
-def funcall_harness(save):
-    from props.engine_family import FAM as ENG, DE
+def funcall_harness(save, with_args=False):
+    from props.engine_family import FAM, FAM_CALLS, DE
+    ENG = FAM_CALLS if with_args else FAM
     rx = r'Fun_Call_AST_Node<.*>::do_eval_internal<%s>\(' % ('true' if save else 'false')
     CS = r'std::__detail::_Map_base<unsigned long, std::pair<unsigned long const, chaiscript::Type_Conversions::Conversion_Saves>.*::operator\[\]'
     stubs = [r'AST_Node_Impl<.*>::eval\(', r'Proxy_Function_Base::operator\(\)', r'chaiscript::boxed_cast<', DE + r'boxed_cast<', r'Function_Push_Pop::', r'chaiscript::detail::Dispatch_State::conversions',
@@ -39,13 +40,93 @@ def funcall_harness(save):
          'FPP_CTOR': core.csym(ENG, r'Function_Push_Pop::Function_Push_Pop\(chaiscript::detail::Dispatch_State const&\)$'), 'FPP_DTOR': core.csym(ENG, r'Function_Push_Pop::~Function_Push_Pop\(\)$'),
          'FPP_SAVE': core.csym(ENG, r'Function_Push_Pop::save_params\(chaiscript::Function_Params const&\)$'), 'CONVERSIONS': core.csym(ENG, r'^chaiscript::detail::Dispatch_State::conversions\(\) const$'),
          'BV_VEC_DTOR': core.csym(ENG, r'^std::vector<chaiscript::Boxed_Value, std::allocator<chaiscript::Boxed_Value> >::~vector\(\)$'), 'CONV_SAVES': core.csym(ENG, CS), 'SAVE_PARAMS': int(save), 'STRING_LITERALS_OPAQUE': 1, 'VERIF_CALL_V1(f,a)': '__VERIF_v1_hook(f,a)'}
+    if with_args:
+        VBV = r'^std::vector<chaiscript::Boxed_Value, std::allocator<chaiscript::Boxed_Value> >::'
+        stubs = [x for x in stubs if '~vector' not in x] + [VBV]
+        d.update({'VEC_MODEL': 1, 'VEC_CTOR': core.csym(ENG, VBV + r'vector\(\)$'), 'VEC_RESERVE': core.csym(ENG, VBV + r'reserve\(unsigned long\)$'), 'VEC_PUSH_BACK': core.csym(ENG, VBV + r'push_back\(chaiscript::Boxed_Value&&\)$')})
     for k, v in TIS.items(): d[k] = '((char*)&g_%s)' % v
     wit = ('witness: argument throws', 'witness: function expression throws', 'witness: not a function', 'witness: call returns', 'witness: return value', 'witness: dispatch failure reported', 'witness: callee exception passes')
     # shapes: calls without arguments only - with arguments (a std::vector<Boxed_Value> built in a byte-addressed temporary) CBMC runs out of memory at 24 GB, not resolved
-    h = Harness('X4.Fun_Call<%s>' % ('saving' if save else 'no-copy'), ENG, [rx], 'c10_funcall.c', stubs=stubs, cuts=cuts,
-                shapes=[dict(d, NA=n, _tag='args=%d' % n, _witness=tuple(w for w in wit if n or w != 'witness: argument throws')) for n in (0,)], opts=['--unwind', '6', '--unwindset', 'main.0:8'], timeout=600, mem_gb=8,
+    h = Harness('X4.Fun_Call<%s>%s' % ('saving' if save else 'no-copy', ' with arguments' if with_args else ''), ENG, [rx], 'c10_funcall.c', stubs=stubs, cuts=cuts,
+                shapes=[dict(d, NA=n, _tag='args=%d' % n, _witness=tuple(w for w in wit if n or w != 'witness: argument throws')) for n in ((1, 2) if with_args else (0,))], opts=['--unwind', '6', '--unwindset', 'main.0:8'], timeout=600, mem_gb=8,
                 inputs=['behav', 'call_beh', 'fn_is_function'], note='calls without arguments (with arguments: no verdict, out of memory); function expression abstract (returns or throws 6 kinds); the call: returns or throws one of 9 kinds')
     h.need_globals = ['_ZTIN10chaiscript9exception10eval_errorE', '_ZTIN10chaiscript11Boxed_ValueE'] + list(TIS.values())
+    return h
+
+def array_call_harness():
+    from props.engine_family import FAM as ENG, DE
+    rx = r'chaiscript::eval::Array_Call_AST_Node<.*>::eval_internal\(chaiscript::detail::Dispatch_State const&\) const$'
+    stubs = [r'AST_Node_Impl<.*>::eval\(', r'Function_Push_Pop::', r'chaiscript::detail::Dispatch_State::conversions', DE + r'call_function\(']
+    cuts = [r'eval_error::', r'Boxed_Value::~Boxed_Value', r'dispatch_error::', r'std::operator\+<char', r'basic_string<char, std::char_traits<char>, std::allocator<char> >::(basic_string|~basic_string)']
+    TIS = {'TI_BAD_BOXED_CAST': '_ZTIN10chaiscript9exception14bad_boxed_castE', 'TI_ARITY_ERROR': '_ZTIN10chaiscript9exception11arity_errorE', 'TI_GUARD_ERROR': '_ZTIN10chaiscript9exception11guard_errorE',
+           'TI_DISPATCH_ERROR': '_ZTIN10chaiscript9exception14dispatch_errorE', 'TI_RETURN_VALUE': '_ZTIN10chaiscript4eval6detail12Return_ValueE'}
+    d = {'NODE_EVAL': core.csym(ENG, rx), 'NODE_EVAL_CHILD': core.csym(ENG, r'AST_Node_Impl<.*>::eval\(chaiscript::detail::Dispatch_State const&\) const$'), 'CALL_FUNCTION': core.csym(ENG, DE + r'call_function\(std::basic_string_view'),
+         'FPP_CTOR': core.csym(ENG, r'Function_Push_Pop::Function_Push_Pop\(chaiscript::detail::Dispatch_State const&\)$'), 'FPP_DTOR': core.csym(ENG, r'Function_Push_Pop::~Function_Push_Pop\(\)$'),
+         'FPP_SAVE': core.csym(ENG, r'Function_Push_Pop::save_params\(chaiscript::Function_Params const&\)$'), 'CONVERSIONS': core.csym(ENG, r'^chaiscript::detail::Dispatch_State::conversions\(\) const$'),
+         'STRING_LITERALS_OPAQUE': 1, 'VERIF_CALL_V1(f,a)': '__VERIF_v1_hook(f,a)'}
+    for k, v in TIS.items(): d[k] = '((char*)&g_%s)' % v
+    h = Harness('X5.Array_Call', ENG, [rx], 'c10_array_call.c', stubs=stubs, cuts=cuts, shapes=[dict(d, _tag='all', _witness=('witness: operand throws', 'witness: call returns', 'witness: dispatch failure reported', 'witness: callee exception passes'))],
+                opts=['--unwind', '6'], timeout=300, mem_gb=8, inputs=['behav', 'call_beh'], note='operands abstract (value or 6 exception kinds); the dispatched [] call returns or throws one of 9 kinds')
+    h.need_globals = ['_ZTIN10chaiscript9exception10eval_errorE', '_ZTIN10chaiscript11Boxed_ValueE'] + list(TIS.values())
+    return h
+
+def dot_access_harness(tier='quick'):
+    import re
+    from props.engine_family import FAM_CALLS as ENG, DE
+    rx = r'chaiscript::eval::Dot_Access_AST_Node<.*>::eval_internal\(chaiscript::detail::Dispatch_State const&\) const$'
+    VBV = r'^std::vector<chaiscript::Boxed_Value, std::allocator<chaiscript::Boxed_Value> >::'
+    stubs = [r'AST_Node_Impl<.*>::eval\(', r'Function_Push_Pop::', r'chaiscript::detail::Dispatch_State::conversions', DE + r'call_function\(', DE + r'call_member\(', VBV, r'chaiscript::make_vector<chaiscript::Boxed_Value&>']
+    cuts = [r'eval_error::', r'Boxed_Value::~Boxed_Value', r'dispatch_error::']
+    g, info = core.translate(ENG, [rx], stubs + core.STRING_MODEL, tag='X6_probe', cuts=cuts)
+    ext = [e.split('|')[0].strip() for e in info['ext']]
+    def one(pat):
+        m = [e for e in ext if re.search(pat, e)]
+        if len(m) != 1: raise core.BuildError('C10 X6: expected exactly one external matching %s, found %d' % (pat, len(m)))
+        return 'F_' + core.cname(m[0])
+    TIS = {'TI_BAD_BOXED_CAST': '_ZTIN10chaiscript9exception14bad_boxed_castE', 'TI_ARITY_ERROR': '_ZTIN10chaiscript9exception11arity_errorE', 'TI_GUARD_ERROR': '_ZTIN10chaiscript9exception11guard_errorE',
+           'TI_DISPATCH_ERROR': '_ZTIN10chaiscript9exception14dispatch_errorE', 'TI_RETURN_VALUE': '_ZTIN10chaiscript4eval6detail12Return_ValueE'}
+    d = {'NODE_EVAL': core.csym(ENG, rx), 'NODE_EVAL_CHILD': one(r'13AST_Node_Impl.*4evalERKNS_6detail14Dispatch_StateE$'), 'CALL_FUNCTION': one(r'15Dispatch_Engine13call_functionE'), 'CALL_MEMBER': one(r'15Dispatch_Engine11call_memberE'),
+         'FPP_CTOR': one(r'17Function_Push_PopC[12]E'), 'FPP_DTOR': one(r'17Function_Push_PopD[12]E'), 'FPP_SAVE': one(r'17Function_Push_Pop11save_paramsE'), 'CONVERSIONS': one(r'14Dispatch_State11conversionsEv'),
+         'MAKE_VECTOR': one(r'^_ZN10chaiscript11make_vectorIJRNS_11Boxed_ValueEEEE'), 'VEC_PUSH_BACK': one(r'^_ZNSt6vectorIN10chaiscript11Boxed_ValueESaIS1_EE9push_backEOS1_$'), 'VEC_DTOR': one(r'^_ZNSt6vectorIN10chaiscript11Boxed_ValueESaIS1_EED[12]Ev$'),
+         'STRING_LITERALS_OPAQUE': 1, 'VERIF_CALL_V1(f,a)': '__VERIF_v1_hook(f,a)'}
+    for k, v in TIS.items(): d[k] = '((char*)&g_%s)' % v
+    W = ('witness: object throws', 'witness: call returns', 'witness: return value', 'witness: dispatch failure with candidates', 'witness: not a function', 'witness: callee exception passes')
+    shapes = [dict(d, RHS=0, NA=0, _tag='obj.name', _witness=W)] + [dict(d, RHS=1, NA=n, _tag='obj.name(%d arguments)' % n, _witness=W + (('witness: argument throws',) if n else ())) for n in ((0, 1, 2) if tier == 'quick' else (0, 1, 2, 3))]
+    h = Harness('X6.Dot_Access', ENG, [rx], 'c10_dot_access.c', stubs=stubs, cuts=cuts, shapes=shapes, opts=['--unwind', '6', '--unwindset', 'main.0:10,main.1:5,main.2:5'], timeout=600, mem_gb=8, string_model=True,
+                inputs=['behav', 'call_beh'], note='object / argument expressions abstract (value or 6 exception kinds); call_member returns or throws one of 10 kinds; vector growth is a recorder over harness storage')
+    h.need_globals = ['_ZTIN10chaiscript9exception10eval_errorE', '_ZTIN10chaiscript11Boxed_ValueE'] + list(TIS.values())
+    return h
+
+def attribute_call_harness():
+    import re
+    from props.engine_family import FAM as ENG, DE
+    rx = r"call_member\(.*'lambda'\(int, chaiscript::Function_Params.*\)::operator\(\)\(int, (?:(?!This_Foist).)*\) const$"
+    CS = r'std::__detail::_Map_base<unsigned long, std::pair<unsigned long const, chaiscript::Type_Conversions::Conversion_Saves>.*::operator\[\]'
+    stubs = [r'chaiscript::dispatch::dispatch<', r'Proxy_Function_Base::operator\(\)', r'chaiscript::boxed_cast<', DE + r'boxed_cast<', DE + r'(new_scope|pop_scope|add_object)\(', CS]
+    cuts = [r'Boxed_Value::~Boxed_Value', r'dispatch_error::', r'std::shared_ptr<.*>::~shared_ptr', r'std::__shared_ptr<.*>::~__shared_ptr', r'std::vector<std::shared_ptr<.*>::~vector', r'std::vector<std::shared_ptr<.*>::vector',
+            r'std::unordered_map<unsigned long, chaiscript::Type_Conversions::Conversion_Saves.*::~unordered_map']
+    g, info = core.translate(ENG, [rx], stubs + core.STRING_MODEL, tag='X7_probe', cuts=cuts)
+    ext = [e.split('|')[0].strip() for e in info['ext']]
+    def opt(pat, dflt):
+        m = [e for e in ext if re.search(pat, e)]
+        if len(m) > 1: raise core.BuildError('C10 X7: %d externals match %s' % (len(m), pat))
+        return ('F_' + core.cname(m[0])) if m else dflt
+    TIS = {'TI_BAD_BOXED_CAST': '_ZTIN10chaiscript9exception14bad_boxed_castE', 'TI_ARITY_ERROR': '_ZTIN10chaiscript9exception11arity_errorE', 'TI_GUARD_ERROR': '_ZTIN10chaiscript9exception11guard_errorE',
+           'TI_DISPATCH_ERROR': '_ZTIN10chaiscript9exception14dispatch_errorE', 'TI_RETURN_VALUE': '_ZTIN10chaiscript4eval6detail12Return_ValueE', 'TI_EVAL_ERROR': '_ZTIN10chaiscript9exception10eval_errorE',
+           'TI_BOXED_VALUE': '_ZTIN10chaiscript11Boxed_ValueE', 'TI_FUNCTION_OBJ': '_ZTIN10chaiscript8dispatch19Proxy_Function_BaseE'}
+    d = {'ATTR_CALL': core.csym(ENG, rx), 'DISPATCH': opt(r'^_ZN10chaiscript8dispatch8dispatchISt6vector', 'unused_dispatch'), 'FUNC_CALL': opt(r'19Proxy_Function_BaseclE', 'unused_func_call'),
+         'CAST_PFB': opt(r'^_ZN10chaiscript10boxed_castIPKNS_8dispatch19Proxy_Function_BaseE', 'unused_cast_pfb'), 'CAST_SHARED_PFB': opt(r'15Dispatch_Engine10boxed_castISt10shared_ptrIKNS_8dispatch19Proxy_Function_Base', 'unused_cast_shared'),
+         'CAST_SHARED_PFB2': opt(r'^_ZN10chaiscript10boxed_castISt10shared_ptrIKNS_8dispatch19Proxy_Function_Base', 'unused_cast_shared2'),
+         'NEW_SCOPE': opt(r'15Dispatch_Engine9new_scopeEv$', 'unused_new_scope'), 'POP_SCOPE': opt(r'15Dispatch_Engine9pop_scopeEv$', 'unused_pop_scope'), 'ADD_OBJECT': opt(r'15Dispatch_Engine10add_objectE', 'unused_add_object'),
+         'CONV_SAVES': opt(r'_Map_baseImSt4pairIKmN10chaiscript16Type_Conversions16Conversion_Saves', 'unused_conv_saves'), 'VERIF_STRCMP_BY_IDENTITY': 1, 'VERIF_CALL_V1(f,a)': '__VERIF_v1_hook(f,a)'}
+    for k, v in TIS.items(): d[k] = '((char*)&g_%s)' % v
+    shapes = []
+    for nump, npar in ((1, 1), (1, 2), (1, 3), (2, 2), (2, 3)):
+        w = ('witness: getter throws', 'witness: not callable', 'witness: call returns', 'witness: cannot be entered', 'witness: callee exception passes') + (('witness: plain attribute',) if nump == npar else ())
+        shapes.append(dict(d, NUMP=nump, NPAR=npar, _tag='getter takes %d of %d values' % (nump, npar), _witness=w))
+    h = Harness('X7.attribute_held_function_call', ENG, [rx], 'c10_attribute_call.c', stubs=stubs, cuts=cuts, shapes=shapes, opts=['--unwind', '6'], timeout=300, mem_gb=8, string_model=True,
+                inputs=['is_function', 'dispatch_throws', 'cast_fails', 'call_beh'], note='attribute getter (1 value) or method_missing (2 values) followed by 0-2 further values; getter, cast and held function abstract: return or throw (10 kinds)')
+    h.need_globals = list(TIS.values())
     return h
 
 def harnesses(tier):
@@ -55,7 +136,10 @@ def harnesses(tier):
     for k in (7, 8):                                                                   # For and Switch nodes: exceptions of any child leave unchanged
         h = C09.node_harness(k); h.name = 'X3.' + h.name[2:]; hs.append(h)
     rf = C09.ranged_for_harness(); rf.name = 'X3.Ranged_For'; hs.append(rf)
-    hs += [funcall_harness(True), funcall_harness(False)]
+    ef = C09.eval_function_harness(tier, subset=True); ef.name = 'X3.eval_function'; hs.append(ef)
+    for k in (1, 4, 5, 6):        # Return, File, Id, Var_Decl: what they catch and what passes
+        c = C09.carrier_harness(k); c.name = 'X3.' + c.name[2:]; hs.append(c)
+    hs += [funcall_harness(True), funcall_harness(False), funcall_harness(True, True), funcall_harness(False, True), array_call_harness(), dot_access_harness(tier), attribute_call_harness()]
     return hs
 
 ASSUMPTIONS = ['children are abstract: eval() of a child returns a value or throws eval_error / runtime_error / out_of_range / std::exception / Boxed_Value / a foreign type',
